@@ -41,6 +41,7 @@ TARGETS = {
 }
 
 lock = threading.Lock()
+CHECKROOT = ROOT  # replaced by a frozen copy of /verif in main(): the checks must not change under a run
 
 
 def sh(cmd, cwd=None, timeout=1800, env=None):
@@ -86,7 +87,7 @@ def worker(widx, q, outf):
                         rec["status"] = "survived_suite"
                         rec["checks"] = {}
                         for p in m["props"]:
-                            c, o = sh([os.path.join(ROOT, "check"), p], cwd=ROOT, env=dict(ENV, VERIF_REPO=wt, VERIF_SEED="1"), timeout=1800)
+                            c, o = sh([os.path.join(CHECKROOT, "check"), p], cwd=CHECKROOT, env=dict(ENV, VERIF_REPO=wt, VERIF_SEED="1"), timeout=1800)
                             keys = [l.split("violation ", 1)[1].strip() for l in o.splitlines() if "] violation " in l][:3]
                             rec["checks"][p] = {"exit": c, "keys": keys}
                             if c == 1:
@@ -100,7 +101,7 @@ def worker(widx, q, outf):
                 print(f"[w{widx}] {m['target']}#{m['k']} {m['kind']} L{m['line']}: {rec['status']}" + (f" detected={rec.get('detected')}" if rec["status"] == "survived_suite" else ""), flush=True)
     finally:
         sh(["git", "-C", "/repo", "worktree", "remove", "--force", wt])
-        shutil.rmtree(os.path.join(ROOT, ".build", "alt-" + wt.strip("/").replace("/", "_")), ignore_errors=True)
+        shutil.rmtree(os.path.join(CHECKROOT, ".build", "alt-" + wt.strip("/").replace("/", "_")), ignore_errors=True)
 
 
 def main():
@@ -130,6 +131,11 @@ def main():
         random.Random(1).shuffle(muts)
         muts = muts[:args.limit]
     print(f"{len(muts)} mutants to run ({len(done)} already done)", flush=True)
+    # freeze the checks: a copy of /verif (sources only) that later edits cannot reach
+    global CHECKROOT
+    CHECKROOT = f"/tmp/mutverif-{os.getpid()}"
+    shutil.rmtree(CHECKROOT, ignore_errors=True)
+    subprocess.run(["rsync", "-a", "--exclude", ".build", "--exclude", "replays", "--exclude", "mutation", "--exclude", ".git", ROOT + "/", CHECKROOT + "/"], check=True)
     q = queue.Queue()
     for m in muts:
         q.put(m)
@@ -139,6 +145,7 @@ def main():
             t.start()
         for t in ths:
             t.join()
+    shutil.rmtree(CHECKROOT, ignore_errors=True)
 
 
 if __name__ == "__main__":
